@@ -147,6 +147,20 @@ def gen_plan(seed, cfg):
             base.append({"kind": "eval", "prob": pk, "assignment": prob["assignment"],
                          "out_format": fm[tname], "inputs": inputs, "backend": "llvm",
                          "key": f"eval|{pk}|llvm|" + _data_key(inputs)})
+            # the same request with one inconsistent dimension: must be refused every time, warm or
+            # cold (an index shared by two arguments gets two different sizes)
+            where = {}
+            for n, ix in prob["inputs"].items():
+                for pos_, x in enumerate(ix):
+                    where.setdefault(prob["classes"].get(x, x), []).append((n, pos_))
+            shared = [v for v in where.values() if len({n for n, _ in v}) >= 2]
+            if shared and rng.random() < 0.5:
+                n, pos_ = rng.choice(rng.choice(shared))
+                bad = copy.deepcopy(inputs)
+                bad[n]["dims"][pos_] += 1
+                base.append({"kind": "eval", "prob": pk, "assignment": prob["assignment"],
+                             "out_format": fm[tname], "inputs": bad, "backend": "llvm", "bad": True,
+                             "key": f"eval|{pk}|llvm|bad:" + _data_key(bad)})
     history = []
     nreq = rng.randint(25, 60)
     evict_at = rng.randrange(3, nreq) if rng.random() < 0.12 else -1
@@ -163,7 +177,11 @@ def gen_plan(seed, cfg):
         if r < 0.08:
             history.append({"kind": "gc"})
             continue
-        history.append(_concretise(rng, rng.choice(base)))
+        b = rng.choice(base)
+        history.append(_concretise(rng, b))
+        if b.get("bad") and rng.random() < 0.7:
+            # an identical rejected request again, straight away
+            history.append(_concretise(rng, b))
     if rng.random() < 0.25:
         tms = [b for b in base if b["kind"] == "tm"]
         if tms:
